@@ -63,7 +63,7 @@ def instances(tier: str) -> list[dict]:
             imp = [i for i in big if i["spec"]["direction"] == "import"]
             oth = [i for i in big if i["spec"]["direction"] != "import"]
             out.extend(rnd.sample(imp, min(len(imp), 260)))
-            out.extend(rnd.sample(oth, min(len(oth), 40)))
+            out.extend(rnd.sample(oth, min(len(oth), 12)))
     for i, inst in enumerate(out):
         inst["cap"] = CAPS[tier]
     return out
